@@ -6,6 +6,7 @@ import warnings
 
 warnings.filterwarnings('ignore')
 import numpy as np  # noqa: E402
+from guard import guarded  # noqa: E402
 from qce_circuit.structure.acquisition_indexing.kernel_repetition_code import RepetitionExperimentKernel, RepetitionIndexKernel  # noqa: E402
 from qce_circuit.structure.acquisition_indexing.kernel_calibration import QutritCalibrationIndexKernel  # noqa: E402
 from qce_circuit.structure.acquisition_indexing.intrf_stabilizer_index_kernel import StateKey  # noqa: E402
@@ -77,14 +78,14 @@ def main(maxround, maxlen, maxreps, out, extra_seed):
             for H in (0, 1):
                 for K in (0, 1):
                     for reps in range(1, maxreps + 1):
-                        rows.append(one(rounds, H, reps, K=K))
+                        rows.append(guarded(one, rounds, H, reps, K=K, _label='rounds=%s H=%d K=%d reps=%d' % (list(rounds), H, K, reps)))
     # beyond TLC's universe: long lists / large counts (still judged by the same trace specification)
     import random
     rnd = random.Random(extra_seed)
     for _ in range(40):
         n = rnd.randint(1, 8)
         rounds = rnd.sample(range(0, 41), n)
-        rows.append(one(rounds, rnd.randint(0, 1), rnd.randint(1, 6), ndata=rnd.randint(1, 4), nanc=rnd.randint(1, 3), K=rnd.randint(0, 1)))
+        rows.append(guarded(one, rounds, rnd.randint(0, 1), rnd.randint(1, 6), ndata=rnd.randint(1, 4), nanc=rnd.randint(1, 3), K=rnd.randint(0, 1), _label='rounds=%s' % rounds))
     json.dump(rows, open(out, 'w'))
     print(len(rows))
 
